@@ -48,6 +48,15 @@ pub(crate) mod verif_file {
     const DEFAULTS: [i64; 6] = [8686, 32, 100, 8000, 5, 3];
 
     fn load(values: &[i64; 6]) -> Result<FileConfig, Error> {
+        load_with(values, 6, false)
+    }
+
+    /// like `load`, but the setting `nonint` (0..6; 6 = none) is written as a non-integer scalar whose
+    /// numeric value is the digit `d`: a quoted string `"d"` or (as_real) the float `d.0`
+    fn load_with(values: &[i64; 6], nonint: usize, as_real: bool) -> Result<FileConfig, Error> {
+        load_with_d(values, nonint, as_real, 0)
+    }
+    fn load_with_d(values: &[i64; 6], nonint: usize, as_real: bool, d: u8) -> Result<FileConfig, Error> {
         #[cfg(kani)]
         {
             use yaml_rust::{Hash, Yaml};
@@ -57,7 +66,14 @@ pub(crate) mod verif_file {
             items.push((s("seed"), s(SEED_HEX)));
             let mut i = 0;
             while i < 6 {
-                items.push((s(KEYS[i]), Yaml::Integer(values[i])));
+                if i == nonint {
+                    let mut txt = if as_real { vec![b'0', b'.', b'0'] } else { vec![b'0'] };
+                    txt[0] = b'0' + d;
+                    let txt = unsafe { String::from_utf8_unchecked(txt) };
+                    items.push((s(KEYS[i]), if as_real { Yaml::Real(txt) } else { Yaml::String(txt) }));
+                } else {
+                    items.push((s(KEYS[i]), Yaml::Integer(values[i])));
+                }
                 i += 1;
             }
             yaml_rust::model_set_doc(vec![Yaml::Hash(Hash { items })]);
@@ -68,7 +84,15 @@ pub(crate) mod verif_file {
             // replay: a real file, the real YAML parser
             let mut text = format!("interface: 127.0.0.1\nseed: {}\n", SEED_HEX);
             for i in 0..6 {
-                text.push_str(&format!("{}: {}\n", KEYS[i], values[i]));
+                if i == nonint {
+                    if as_real {
+                        text.push_str(&format!("{}: {}.0\n", KEYS[i], d));
+                    } else {
+                        text.push_str(&format!("{}: \"{}\"\n", KEYS[i], d));
+                    }
+                } else {
+                    text.push_str(&format!("{}: {}\n", KEYS[i], values[i]));
+                }
             }
             let path = std::env::temp_dir().join(format!("verif-c16-{}.cfg", std::process::id()));
             std::fs::write(&path, text).unwrap();
@@ -119,6 +143,30 @@ pub(crate) mod verif_file {
             _ => v >= 1 && v <= 1024,
         };
         vassert!(!must_accept || r.is_ok(), "VERIF:C16:documented-in-range-value-accepted-by-the-loader");
+        core::mem::forget(r);
+    }
+
+    /// Non-integer scalar obligation: an integer setting written as a quoted string ("7") or as a
+    /// float (7.0) with a digit 1..=9 -- in range for every setting -- is either refused (Err or a
+    /// loader panic, which ends start-up) or taken at its written value; it is never silently
+    /// replaced by the default.  The solver chooses the digit; the scalar kind is fixed per harness
+    /// (a symbolic kind did not finish in 600 s); the other five settings keep in-range constants.
+    pub fn nonint_body(which: usize, as_real: bool) {
+        let d = vany_u8();
+        vassume(d >= 1 && d <= 9);
+        vcover!(true, "COVER:nonint-document-built");
+        let r = load_with_d(&DEFAULTS, which, as_real, d);
+        if let Ok(cfg) = &r {
+            let got: [i128; 6] = [
+                cfg.port() as i128,
+                cfg.batch_size() as i128,
+                cfg.status_interval().as_secs() as i128,
+                cfg.health_check_port().map(|p| p as i128).unwrap_or(-1),
+                cfg.fault_percentage() as i128,
+                cfg.num_workers() as i128,
+            ];
+            vassert!(got[which] == d as i128, "VERIF:C16:non-integer-scalar-is-refused-or-taken-at-its-written-value");
+        }
         core::mem::forget(r);
     }
 
@@ -191,4 +239,40 @@ pub(crate) mod verif_file {
     c16_file!(c16_file_fault_percentage, 4);
     //@ harness c16_file_num_workers tier=quick shape="num_workers: any i64"
     c16_file!(c16_file_num_workers, 5);
+
+    macro_rules! c16_nonint {
+        ($name:ident, $which:expr, $real:expr) => {
+            #[cfg_attr(kani, kani::proof)]
+            #[cfg_attr(kani, kani::unwind(12))]
+            #[cfg_attr(kani, kani::stub(data_encoding::Encoding::decode, crate::config::file::verif_file::stub_hex_decode))]
+            #[cfg_attr(kani, kani::stub(std::fs::File::open, crate::config::file::verif_file::stub_file_open))]
+            #[cfg_attr(kani, kani::stub(<std::fs::File as std::io::Read>::read_to_string, crate::config::file::verif_file::stub_read_to_string))]
+            #[cfg_attr(kani, kani::stub(<std::os::fd::OwnedFd as std::ops::Drop>::drop, crate::config::file::verif_file::stub_ownedfd_drop))]
+            #[cfg_attr(kani, kani::stub(std::thread::available_parallelism, crate::config::file::verif_file::stub_available_parallelism))]
+            #[cfg_attr(kani, kani::stub(alloc::fmt::format, crate::config::file::verif_file::stub_format))]
+            #[cfg_attr(kani, kani::stub(<std::net::SocketAddr as std::str::FromStr>::from_str, crate::config::file::verif_file::stub_socketaddr_from_str))]
+            #[cfg_attr(not(kani), test)]
+            fn $name() {
+                nonint_body($which, $real);
+            }
+        };
+    }
+
+    //@ family c16_nonint props=C16 mode=panics-ok mod=config::file::verif_file must_cover=COVER:nonint-document-built timeout=300
+    //@ harness c16_nonint_port_str tier=quick shape="port written as a quoted one-digit string, digit 1..9 symbolic; other settings in-range constants"
+    c16_nonint!(c16_nonint_port_str, 0, false);
+    //@ harness c16_nonint_batch_size_str tier=quick shape="batch_size written as a quoted one-digit string, digit 1..9 symbolic; other settings in-range constants"
+    c16_nonint!(c16_nonint_batch_size_str, 1, false);
+    //@ harness c16_nonint_status_interval_str tier=quick shape="status_interval written as a quoted one-digit string, digit 1..9 symbolic; other settings in-range constants"
+    c16_nonint!(c16_nonint_status_interval_str, 2, false);
+    //@ harness c16_nonint_health_check_port_str tier=quick shape="health_check_port written as a quoted one-digit string, digit 1..9 symbolic; other settings in-range constants"
+    c16_nonint!(c16_nonint_health_check_port_str, 3, false);
+    //@ harness c16_nonint_fault_percentage_str tier=quick shape="fault_percentage written as a quoted one-digit string, digit 1..9 symbolic; other settings in-range constants"
+    c16_nonint!(c16_nonint_fault_percentage_str, 4, false);
+    //@ harness c16_nonint_num_workers_str tier=quick shape="num_workers written as a quoted one-digit string, digit 1..9 symbolic; other settings in-range constants"
+    c16_nonint!(c16_nonint_num_workers_str, 5, false);
+    //@ harness c16_nonint_batch_size_real tier=quick shape="batch_size written as the float d.0, digit 1..9 symbolic; other settings in-range constants"
+    c16_nonint!(c16_nonint_batch_size_real, 1, true);
+    //@ harness c16_nonint_fault_percentage_real tier=quick shape="fault_percentage written as the float d.0, digit 1..9 symbolic; other settings in-range constants"
+    c16_nonint!(c16_nonint_fault_percentage_real, 4, true);
 }
